@@ -66,7 +66,9 @@ func recoverOn(img *vdisk.Disk, unstable bool, ext Extents) (ok bool, errs strin
 		return false, err.Error(), &Dump{Ev: "dump", Who: "recovered", Objs: []DObj{}}, nil
 	}
 	snap = TakeSnap(s, "recovered", true)
+	DumpTolerantShort = func() bool { fb, _ := s.Free(); return fb < 64 }
 	dump = DumpAPIx(s.API, "recovered", ext)
+	DumpTolerantShort = nil
 	func() {
 		defer func() { recover() }()
 		s.Shutdown()
@@ -126,8 +128,12 @@ func RunCrash(cfg CrashCfg, t *Trace, seg int) int {
 		Root: g.root.fh, KeepHist: true})
 	seg++
 	g.limits()
-	for n := 0; n < cfg.Ops && !s.Wedged; n++ {
-		g.step()
+	if cfg.Profile == "script" {
+		crashScript(g, cfg.Seed)
+	} else {
+		for n := 0; n < cfg.Ops && !s.Wedged; n++ {
+			g.step()
+		}
 	}
 	if s.Wedged {
 		Mon.Reset()
@@ -316,4 +322,102 @@ func RunCrash(cfg CrashCfg, t *Trace, seg int) int {
 		}
 	}
 	return seg
+}
+
+// crashScript: directed workloads for the crash engine (patterns in which atomicity or durability is at risk):
+// writes that fill holes without growing the file, pre-sized files, truncations large enough for the background
+// shrinker, UNSTABLE/COMMIT sequences with read-only calls in between, renames over targets, removals of big files.
+func crashScript(g *seqGen, variant int) {
+	const B = 4096
+	root := g.root.fh
+	mk := func(proc, dir, name string) string {
+		c := NewCall(proc)
+		c.Fh, c.Name, c.NLen = dir, name, len(name)
+		if proc == "SYMLINK" {
+			c.Target, c.TLen = "/some/target", 12
+		}
+		c = g.emit(c)
+		g.learn(c)
+		return c.RFh
+	}
+	wr := func(fh string, off, n, stable int) {
+		c := NewCall("WRITE")
+		c.Fh, c.Off, c.Cnt, c.DLen, c.Stable = fh, off, n, n, stable
+		c.Data = g.payload(n)
+		g.learn(g.emit(c))
+	}
+	tr := func(fh string, size int) {
+		c := NewCall("SETATTR")
+		c.Fh, c.SetSize, c.Size = fh, true, size
+		g.emit(c)
+	}
+	simple := func(proc, fh string) {
+		c := NewCall(proc)
+		c.Fh, c.Cnt = fh, 100
+		g.emit(c)
+	}
+	rn := func(d, n, d2, n2 string) {
+		c := NewCall("RENAME")
+		c.Fh, c.Name, c.Fh2, c.Name2, c.NLen, c.NLen2 = d, n, d2, n2, len(n), len(n2)
+		g.learn(g.emit(c))
+	}
+	rm := func(proc, d, n string) {
+		c := NewCall(proc)
+		c.Fh, c.Name, c.NLen = d, n, len(n)
+		g.learn(g.emit(c))
+	}
+	switch variant % 4 {
+	case 0: // holes filled by non-growing multi-block writes; pre-sized file
+		f := mk("CREATE", root, "f")
+		wr(f, B, B, 2)   // block 1, block 0 stays a hole
+		wr(f, 0, 2*B, 2) // fills the hole, does not grow the file
+		h := mk("CREATE", root, "h")
+		tr(h, 32*B)
+		wr(h, 0, 12*B, 2) // crosses from direct into indirect blocks inside the pre-set size
+		wr(h, 6*B+100, 3*B, 1)
+		wr(h, 20*B, 5000, 2)
+		tr(h, 7*B+10)
+		wr(h, 2*B, 2*B, 2)
+	case 1: // truncations that need the background shrinker; removal of a big file
+		f := mk("CREATE", root, "big")
+		wr(f, 0, 3*B, 2)
+		wr(f, 530*B, 2*B, 2)
+		tr(f, 2*B) // aligned, > 511 blocks cut off
+		wr(f, 540*B, 100, 2)
+		tr(f, B+17) // unaligned
+		wr(f, 600*B, B, 2)
+		rm("REMOVE", root, "big")
+		mk("CREATE", root, "next")
+	case 2: // UNSTABLE / COMMIT with read-only calls in between, two files
+		a := mk("CREATE", root, "a")
+		b := mk("CREATE", root, "b")
+		wr(a, 0, 5000, 0)
+		simple("GETATTR", a)
+		simple("COMMIT", a)
+		wr(b, 0, 3000, 0)
+		wr(a, 4096, 4096, 0)
+		simple("READ", a)
+		simple("COMMIT", a)
+		wr(b, 8192, 100, 0)
+		simple("GETATTR", b)
+		simple("COMMIT", b)
+		wr(a, 100, 50, 0)
+		mk("MKDIR", root, "d")
+		wr(b, 0, 10, 0)
+	case 3: // namespace: renames over existing targets, directory trees
+		d := mk("MKDIR", root, "d")
+		e := mk("MKDIR", d, "e")
+		f := mk("CREATE", d, "f")
+		wr(f, 0, 9000, 2)
+		g1 := mk("CREATE", root, "g")
+		wr(g1, 0, 100, 2)
+		rn(d, "f", root, "g")
+		mk("SYMLINK", e, "l")
+		rn(e, "l", d, "l2")
+		rm("REMOVE", d, "l2")
+		rm("RMDIR", d, "e")
+		rn(root, "g", d, "g")
+		rm("REMOVE", d, "g")
+		rm("RMDIR", root, "d")
+	}
 }
